@@ -39,14 +39,6 @@ Fixpoint tr (fe : fenv) (s : store) (e : expr) : list ev :=
 
 Definition no_writes (fe : fenv) : Prop := forall f, f_writes (fe f) = [].
 
-(* every call of a function the analyzer leaves unmarked has no marked argument *)
-Fixpoint se_closed (fe : fenv) (e : expr) : bool :=
-  match e with
-  | ECall f args => forallb (se_closed fe) args && (f_se (fe f) || negb (existsb (has_se fe) args))
-  | EBin _ l r => se_closed fe l && se_closed fe r
-  | _ => true
-  end.
-
 Section NoWrites.
   Variable fe : fenv.
   Hypothesis NW : no_writes fe.
@@ -89,17 +81,14 @@ Section NoWrites.
   Lemma f_se_nw f : f_se (fe f) = f_event (fe f).
   Proof. unfold f_se. rewrite NW. cbn. apply orb_false_r. Qed.
 
-  Lemma unmarked_silent : forall e, se_closed fe e = true -> has_se fe e = false -> tr fe s e = [].
+  Lemma unmarked_silent : forall e, has_se fe e = false -> tr fe s e = [].
   Proof.
-    induction e as [v|k x|f args IH|o l r IHl IHr] using expr_ind'; intros Hc Hs; try reflexivity.
-    - cbn [se_closed has_se tr] in *. rewrite f_se_nw in *. rewrite Hs in *. cbn [orb] in Hc.
-      apply andb_prop in Hc. destruct Hc as (Hall & Hnone). rewrite app_nil_r.
-      apply negb_true_iff in Hnone.
+    induction e as [v|k x|f args IH|o l r IHl IHr] using expr_ind'; intros Hs; try reflexivity.
+    - cbn [has_se tr] in *. apply orb_false_iff in Hs. destruct Hs as (Hf & Hnone).
+      rewrite f_se_nw in Hf. rewrite Hf, app_nil_r.
       induction IH as [|a r' Ha _ IHr']; [reflexivity|].
-      cbn [forallb existsb flat_map] in *. apply andb_prop in Hall. destruct Hall as (H1 & H2).
-      apply orb_false_iff in Hnone. destruct Hnone as (N1 & N2).
-      rewrite (Ha H1 N1), (IHr' H2 N2). reflexivity.
-    - cbn [se_closed has_se tr] in *. apply andb_prop in Hc. destruct Hc as (C1 & C2).
-      apply orb_false_iff in Hs. destruct Hs as (S1 & S2). rewrite (IHl C1 S1), (IHr C2 S2). reflexivity.
+      cbn [existsb flat_map] in *. apply orb_false_iff in Hnone. destruct Hnone as (N1 & N2).
+      rewrite (Ha N1), (IHr' N2). reflexivity.
+    - cbn [has_se tr] in *. apply orb_false_iff in Hs. destruct Hs as (S1 & S2). rewrite (IHl S1), (IHr S2). reflexivity.
   Qed.
 End NoWrites.
